@@ -8,6 +8,6 @@ CONSTANTS
   CacheCheck = "pc"
   RuleF <- RuleMemo
   Emit = FALSE
-INVARIANTS TypeOK Inv_C07_nonempty Inv_C09_chatter
+INVARIANTS TypeOK Inv_C07_nonempty Inv_C09_chatter Inv_C19_sum Inv_C19_window Inv_C19_chromatic
 PROPERTIES Prop_C07 Prop_C07_forbid Prop_C09_stable Prop_C09_free Prop_C09_mono
 CHECK_DEADLOCK FALSE
